@@ -358,6 +358,14 @@ class ConnectionManager:
                 (connect_task, closing_task),
                 return_when=FIRST_COMPLETED,
             )
+            closing_task.cancel()
+            connect_task.cancel()
+
+            if self._connection and self._is_closing.is_set():
+                # connected at the same time as close() was called
+                transport, _ = self._connection
+                transport.close()
+                self._connection = None
 
             if self._connection:
                 _, protocol = self._connection
@@ -367,6 +375,7 @@ class ConnectionManager:
                     (done_task, closing_task2),
                     return_when=FIRST_COMPLETED,
                 )
+                closing_task2.cancel()
 
                 if not self._is_closing.is_set():
                     _LOGGER.warning("Connection lost")
